@@ -286,6 +286,13 @@ func genLeftover(cfg simkit.RunConfig, backend string) *Scenario {
 		if r.Intn(4) == 0 {
 			p.End = "rollback"
 		}
+		// a commit-wait constraint: far ahead (Commit fails - on the async-commit / 1PC path before any prewrite) or near
+		switch r.Intn(10) {
+		case 0:
+			p.CommitWait = "lag"
+		case 1:
+			p.CommitWait = "near"
+		}
 		// nothing expires in this mode: unbounded lock waits would only spin on application-level
 		// wait cycles (a commit blocked by a lock whose owner waits for the committer)
 		for j := range p.Ops {
@@ -478,6 +485,7 @@ func genGC(cfg simkit.RunConfig, backend string) *Scenario {
 		RangeLo: lo, RangeHi: hi, FailAt: -1, DelLo: dlo, DelHi: dhi, DeleteRange: r.Intn(2) == 0}
 	if r.Intn(4) == 0 {
 		sc.GC.FailAt = r.Intn(4)
+		sc.GC.CancelInCall = r.Intn(2) == 0
 	}
 	// splits attached to requests of the GC client (between a lock scan and the resolve request that follows it)
 	if r.Intn(2) == 0 {
